@@ -223,15 +223,16 @@ class UnitScopeMachine(Machine):
         return u
 
     def _bad_entry(self, rng, kind, reserved=None):
+        form = "quantity" if rng.random() < 0.4 else "dict"   # both ways of giving a unit
         if kind == "dup_table":
-            s = rng.choice(["m", "g", "J", "erg", "[c]", "[pi]", "Cel"])
-            return {"sym": s, "mag": 2.0, "dim": "m", "form": "dict", "prefixes": None,
+            s = rng.choice(["m", "g", "J", "erg", "[c]", "[pi]", "Cel", "ft"])
+            return {"sym": s, "mag": 2.0, "dim": "m", "form": form, "prefixes": None,
                     "defn": None}
         if kind == "dup_enclosing":
             syms = list(self.open_symbols())
             if not syms:
                 return None
-            return {"sym": rng.choice(syms), "mag": 2.0, "dim": "m", "form": "dict",
+            return {"sym": rng.choice(syms), "mag": 2.0, "dim": "m", "form": form,
                     "prefixes": None, "defn": None}
         if kind == "clash_prefixed":
             return {"sym": rng.choice(CLASH_PREFIXED), "mag": 2.0, "dim": "m", "form": "dict",
@@ -430,9 +431,15 @@ class UnitScopeMachine(Machine):
     def _usable(self, u, prefix=""):
         sym = prefix + u["sym"]
         factor = u["mag"] * (S.UNIT_PREFIXES[prefix].magnitude if prefix else 1.0)
-        q = Quantity(1, sym)
         base = BASE_EXPR[u["dim"]]
-        v = q.value(base) if base else q.value()
+        try:
+            q = Quantity(1, sym)
+            v = q.value(base) if base else q.value()
+        except Exception as e:
+            raise Violation("custom_unit_unusable_inside_scope",
+                            {"symbol": sym, "convert_to": base,
+                             "error": [type(e).__name__, repr(e.args)[:200]]},
+                            signature="C09/usable_inside/error")
         if not math.isclose(float(v), factor, rel_tol=1e-12):
             raise Violation("custom_unit_wrong_inside_scope",
                             {"symbol": sym, "got": float(v), "want": factor},
@@ -540,6 +547,21 @@ class UnitScopeMachine(Machine):
             return "open_failed:" + type(e).__name__, len(self.stack)
         if op.get("bad"):
             self.stats.fault("open_" + op["bad"]["kind"], False)
+        # the scope opened: it must not have replaced a symbol that existed before it
+        taken = {k for k, _ in pre["standard"]}
+        clash = [u["sym"] for u in spec if u["sym"] in taken]
+        if clash:
+            try:
+                env.close()
+            except Exception:
+                pass
+            d = tables.diff(pre, tables.snapshot())
+            if not d:
+                return "opened_and_closed_duplicate", clash
+            raise Violation("scope_replaced_an_existing_symbol",
+                            {"symbols": clash, "tables_after_closing_it_again": d},
+                            signature="C09/replaced_existing/" + (op["bad"]["kind"] if op.get("bad")
+                                                                  else "unplanned"))
         env.__enter__()
         self.stack.append({"env": env, "units": spec, "pre": pre})
         for u in spec:
